@@ -1,2 +1,234 @@
-import FpgoVerif.Model.C08
-/-! Property theorems for C08 (none yet). -/
+import FpgoVerif.Proofs.C08Lin
+import FpgoVerif.Gen.LockModes
+import FpgoVerif.Gen.Skeletons
+/-! Property theorems for C08 — ConcurrentQueue / ConcurrentStack are linearizable over any wrapped
+    queue / stack.  `step`, `run`, `Reach`, `queueSys`, `stackSys` are the definitions the driver executes.
+
+    Dependency (not imported): C06 proves that `LinkedListQueue` refines the ideal deque `qApply`/`sApply`
+    used here as the wrapped object; the generic theorems hold for ANY sequential object. -/
+namespace FpgoVerif.C08
+
+variable {σ Op ρ : Type}
+
+/-- **Linearizability, generic.**  For any sequential object and any reachable state of the system in which
+    every method takes the lock exclusively (any number of threads, any interleaving, any length):
+    (1) the linearization `lin` (operations in commit = lock-acquisition order) is a legal sequential
+    history of the object — running `apply` one operation at a time from `init` yields exactly the recorded
+    return values and the current state of the wrapped object (never a torn state);
+    (2) `lin` is strictly ordered by its time stamps;
+    (3) every completed call took effect at one point strictly between its invocation and its response
+    and returned what that point of the sequential history returned. -/
+theorem C08_linearizable (sys : Sys σ Op ρ) (hx : ∀ op, sys.mode op = .excl) (s : State σ Op ρ)
+    (h : Reach sys s) :
+    seqRun sys.apply sys.init (s.lin.map (·.op)) = (s.obj, s.lin.map (·.ret)) ∧
+    s.lin.Pairwise (fun a b => a.linAt < b.linAt) ∧
+    ∀ d ∈ s.done, d.invAt < d.linAt ∧ d.linAt < d.retAt ∧ (⟨d.t, d.op, d.ret, d.linAt⟩ : LinE Op ρ) ∈ s.lin :=
+  let i := reach_inv sys hx h
+  ⟨i.seq, i.sorted, fun d hd => let ⟨a, b, _, c⟩ := i.doneOK d hd; ⟨a, b, c⟩⟩
+
+/-- the order is consistent with real time: a call that returned before another was invoked is linearized
+    earlier; two completed calls never share a linearization entry -/
+theorem C08_real_time_order (sys : Sys σ Op ρ) (hx : ∀ op, sys.mode op = .excl) (s : State σ Op ρ)
+    (h : Reach sys s) :
+    (∀ d1 ∈ s.done, ∀ d2 ∈ s.done, d1.retAt < d2.invAt → d1.linAt < d2.linAt) ∧
+    s.done.Pairwise (fun a b => a.linAt ≠ b.linAt) := by
+  have i := reach_inv sys hx h
+  refine ⟨?_, i.doneDistinct⟩
+  intro d1 h1 d2 h2 hlt
+  have a := i.doneOK d1 h1
+  have b := i.doneOK d2 h2
+  omega
+
+/-- every single return value is the one the sequential object gives at that position of the linearization -/
+theorem C08_each_return_is_sequential (sys : Sys σ Op ρ) (hx : ∀ op, sys.mode op = .excl) (s : State σ Op ρ)
+    (h : Reach sys s) (pre post : List (LinE Op ρ)) (e : LinE Op ρ) (hl : s.lin = pre ++ e :: post) :
+    e.ret = (sys.apply (seqRun sys.apply sys.init (pre.map (·.op))).1 e.op).2 := by
+  have hs := (reach_inv sys hx h).seq
+  rw [hl] at hs
+  simp only [List.map_append, List.map_cons] at hs
+  rw [seqRun_append] at hs
+  have h2 := congrArg Prod.snd hs
+  simp only [seqRun] at h2
+  have hlen : (seqRun sys.apply sys.init (pre.map (·.op))).2.length = (pre.map (·.ret)).length := by
+    rw [seqRun_length]; simp
+  have := (List.append_inj h2 hlen).2
+  simp at this
+  exact this.1.symm
+
+/-- the linearization order IS the lock-acquisition order: the threads of `lin` are exactly the sequence of
+    lock acquisitions, up to the one thread that holds the lock and has not committed yet -/
+theorem C08_lin_is_acquisition_order (sys : Sys σ Op ρ) (hx : ∀ op, sys.mode op = .excl) (s : State σ Op ρ)
+    (h : Reach sys s) :
+    s.acqs = s.lin.map (·.t) ∨ ∃ t, precommit (s.pc t) ∧ s.acqs = s.lin.map (·.t) ++ [t] := by
+  have i := reach_inv sys hx h
+  by_cases hp : ∃ t, precommit (s.pc t)
+  · obtain ⟨t, ht⟩ := hp
+    exact Or.inr ⟨t, ht, i.acqPre t ht⟩
+  · exact Or.inl (i.acqDone (fun t ht => hp ⟨t, ht⟩))
+
+/-- mutual exclusion: at most one thread is between acquisition and release, and it owns the lock -/
+theorem C08_mutual_exclusion (sys : Sys σ Op ρ) (hx : ∀ op, sys.mode op = .excl) (s : State σ Op ρ)
+    (h : Reach sys s) (t1 t2 : Nat) (h1 : holding (s.pc t1)) (h2 : holding (s.pc t2)) : t1 = t2 := by
+  have i := reach_inv sys hx h
+  have a := i.holder t1 h1
+  have b := i.holder t2 h2
+  rw [a] at b; cases b; rfl
+
+/-- no deadlock on the lock: whenever a thread waits for the lock, either it can take it now or the
+    current holder has an enabled step (towards its deferred unlock) -/
+theorem C08_lock_progress (sys : Sys σ Op ρ) (hx : ∀ op, sys.mode op = .excl) (s : State σ Op ρ)
+    (h : Reach sys s) (t : Nat) (op : Op) (i : Nat) (hw : s.pc t = .waiting op i) :
+    (step sys s (.acq t)).isSome ∨
+    ∃ u, (step sys s (.read u)).isSome ∨ (step sys s (.commit u)).isSome ∨ (step sys s (.rel u)).isSome :=
+  lock_progress sys hx h t op i hw
+
+/-- whatever the driver executes (complete calls `inv; acq; read; commit; rel`, seeded schedules) is a `run`
+    from a reachable state, hence reachable: the theorems apply to every state the driver visits -/
+theorem C08_driver_runs_reachable (sys : Sys σ Op ρ) (s s' : State σ Op ρ) (acts : List (Act Op))
+    (h : Reach sys s) (hr : run sys s acts = some s') : Reach sys s' :=
+  reach_run sys acts h hr
+
+/-! ### instantiation: the wrapped object is the ideal deque -/
+
+theorem queueSys_excl : ∀ op, queueSys.mode op = .excl := fun _ => rfl
+theorem stackSys_excl : ∀ op, stackSys.mode op = .excl := fun _ => rfl
+
+/-- **ConcurrentQueue: FIFO, exactly-once, no phantom.**  In every reachable state the values removed so far
+    (in linearization order) followed by the current content are exactly the values offered so far (in
+    linearization order): a removal never returns a value that was not offered, never returns one twice,
+    and removals come out in the order of the offers. -/
+theorem C08_queue_fifo_conservation (s : State (List Int) QOp Ret) (h : Reach queueSys s) :
+    okVals (s.lin.map (·.ret)) ++ s.obj = offered (s.lin.map (·.op)) := by
+  have hs := (reach_inv queueSys queueSys_excl h).seq
+  have := queue_conservation (s.lin.map (·.op)) []
+  have e : queueSys.apply = qApply := rfl
+  have e2 : queueSys.init = [] := rfl
+  rw [e, e2] at hs
+  rw [hs] at this
+  simpa using this
+
+/-- once the queue is drained, every offered value has been removed exactly once, in FIFO order -/
+theorem C08_queue_drained_exactly_once (s : State (List Int) QOp Ret) (h : Reach queueSys s)
+    (hd : s.obj = []) : okVals (s.lin.map (·.ret)) = offered (s.lin.map (·.op)) := by
+  have := C08_queue_fifo_conservation s h
+  rw [hd] at this; simpa using this
+
+/-- no phantom and at most once (as multiset inequality): every value is removed at most as often as it
+    was offered -/
+theorem C08_queue_at_most_once (s : State (List Int) QOp Ret) (h : Reach queueSys s) (v : Int) :
+    (okVals (s.lin.map (·.ret))).count v ≤ (offered (s.lin.map (·.op))).count v := by
+  rw [← C08_queue_fifo_conservation s h, List.count_append]; omega
+
+/-- a removal reports `empty` only if the queue is empty at its linearization point -/
+theorem C08_queue_empty_only_if_empty (s : State (List Int) QOp Ret) (h : Reach queueSys s)
+    (pre post : List (LinE QOp Ret)) (e : LinE QOp Ret) (hl : s.lin = pre ++ e :: post)
+    (he : e.ret = .empty) : (seqRun qApply [] (pre.map (·.op))).1 = [] := by
+  have := C08_each_return_is_sequential queueSys queueSys_excl s h pre post e hl
+  rw [he] at this
+  have e1 : queueSys.apply = qApply := rfl
+  have e2 : queueSys.init = [] := rfl
+  rw [e1, e2] at this
+  generalize (seqRun qApply [] (pre.map (·.op))).1 = q at this ⊢
+  cases hop : e.op <;> cases q <;> simp [hop, qApply] at this ⊢
+
+/-- **ConcurrentStack: exactly-once, no phantom** (the LIFO discipline itself is clause (1) of
+    `C08_linearizable` for `sApply`: each Pop returns the last element of the sequential content) -/
+theorem C08_stack_conservation (s : State (List Int) SOp Ret) (h : Reach stackSys s) :
+    (okVals (s.lin.map (·.ret)) ++ s.obj).Perm (pushed (s.lin.map (·.op))) := by
+  have hs := (reach_inv stackSys stackSys_excl h).seq
+  have := stack_conservation (s.lin.map (·.op)) []
+  have e : stackSys.apply = sApply := rfl
+  have e2 : stackSys.init = [] := rfl
+  rw [e, e2] at hs
+  rw [hs] at this
+  simpa using this
+
+theorem C08_stack_empty_only_if_empty (s : State (List Int) SOp Ret) (h : Reach stackSys s)
+    (pre post : List (LinE SOp Ret)) (e : LinE SOp Ret) (hl : s.lin = pre ++ e :: post)
+    (he : e.ret = .empty) : (seqRun sApply [] (pre.map (·.op))).1 = [] := by
+  have := C08_each_return_is_sequential stackSys stackSys_excl s h pre post e hl
+  rw [he] at this
+  have e1 : stackSys.apply = sApply := rfl
+  have e2 : stackSys.init = [] := rfl
+  rw [e1, e2] at this
+  generalize (seqRun sApply [] (pre.map (·.op))).1 = q at this ⊢
+  cases hop : e.op with
+  | push v => simp [hop, sApply] at this
+  | pop =>
+    cases hq : q.getLast? with
+    | none => simpa using hq
+    | some a => simp [hop, sApply, hq] at this
+
+/-! ### the pre-fix code is refuted -/
+
+/-- the schedule: one Offer(1) completes; two consumers enter Poll under RLock together, both read the
+    head before either writes it back -/
+def rlockWitness : List (Act QOp) :=
+  [.inv 0 (.offer 1), .acq 0, .read 0, .commit 0, .rel 0,
+   .inv 1 .poll, .inv 2 .poll, .acq 1, .acq 2, .read 1, .read 2, .commit 1, .commit 2, .rel 1, .rel 2]
+
+/-- With `RLock` around Take/Poll (the pinned code) the single offered value is delivered twice. -/
+theorem C08_rlock_refutes :
+    (run queueSysPinned (initState queueSysPinned) rlockWitness).map (fun s => s.done.map (·.ret))
+      = some [.nil, .ok 1, .ok 1] := by decide
+
+/-- ConcurrentStack with `RLock` around Pop (the pinned code): the single pushed value is popped twice. -/
+theorem C08_rlock_refutes_stack :
+    (run stackSysPinned (initState stackSysPinned)
+      [.inv 0 (.push 1), .acq 0, .read 0, .commit 0, .rel 0,
+       .inv 1 .pop, .inv 2 .pop, .acq 1, .acq 2, .read 1, .read 2, .commit 1, .commit 2, .rel 1, .rel 2]).map
+      (fun s => s.done.map (·.ret)) = some [.nil, .ok 1, .ok 1] := by decide
+
+/-- the same schedule is not even enabled in the repaired system (the second `acq` must wait) -/
+example : (run queueSys (initState queueSys) rlockWitness).isNone = true := by decide
+
+/-! ### non-vacuity: a reachable state of `queueSys` with overlapping calls of three threads, one of them
+    still inside its critical section, one waiting for the lock -/
+
+def demoSchedule : List (Act QOp) :=
+  [.inv 0 (.offer 7), .inv 1 .poll, .inv 2 (.put 8), .acq 1, .read 1, .commit 1, .rel 1,
+   .acq 2, .read 2, .commit 2, .rel 2, .inv 1 .take, .acq 1, .read 1, .commit 1]
+
+example : (run queueSys (initState queueSys) demoSchedule).map
+      (fun s => (s.done.map (·.ret), s.lin.map (·.ret), s.obj, s.lock)) =
+    some ([.empty, .nil], [.empty, .nil, .ok 8], [], .excl 1) := by decide
+
+example : (run stackSys (initState stackSys)
+      [.inv 0 (.push 1), .inv 1 (.push 2), .acq 1, .read 1, .commit 1, .rel 1, .acq 0, .read 0, .commit 0, .rel 0,
+       .inv 2 .pop, .acq 2, .read 2, .commit 2, .rel 2]).map (fun s => (s.done.map (·.ret), s.obj)) =
+    some ([.nil, .nil, .ok 1], [2]) := by decide
+
+/-! ### closing theorems over data regenerated from queue.go on every run -/
+
+/-- a method body is exactly: take the write lock; defer its release; return the delegated call -/
+def exclusiveDeferred (m : Gen.LockMode) (field : String) : Bool :=
+  m.stmts == ["acquire:lock.Lock", "defer:lock.Unlock", s!"return:{field}.{m.method}({m.params})"]
+
+/-- the table covers exactly the six wrapper methods -/
+theorem C08_modes_inventory :
+    Gen.lockModes.map (fun m => (m.type, m.method)) =
+      [("ConcurrentQueue", "Offer"), ("ConcurrentQueue", "Poll"), ("ConcurrentQueue", "Put"),
+       ("ConcurrentQueue", "Take"), ("ConcurrentStack", "Pop"), ("ConcurrentStack", "Push")] := by decide
+
+/-- every method of ConcurrentQueue / ConcurrentStack (all of them delegate to a mutating method of the
+    wrapped Queue / Stack) takes `lock.Lock()`, releases it by `defer lock.Unlock()`, and returns the
+    like-named method of the wrapped object applied to its own parameters — i.e. the code has the
+    `acq ; apply ; rel` shape with `mode = excl` that `C08_linearizable` assumes (`queueSys`, `stackSys`). -/
+theorem C08_modes :
+    ∀ m ∈ Gen.lockModes,
+      exclusiveDeferred m (if m.type = "ConcurrentQueue" then "queue" else "stack") = true := by decide
+
+theorem C08_skel_queue_put : Gen.skeletonOf "ConcurrentQueue.Put" =
+    some "call(lock.Lock) defer{call(lock.Unlock)} call(queue.Put) return" := by decide
+theorem C08_skel_queue_offer : Gen.skeletonOf "ConcurrentQueue.Offer" =
+    some "call(lock.Lock) defer{call(lock.Unlock)} call(queue.Offer) return" := by decide
+theorem C08_skel_queue_take : Gen.skeletonOf "ConcurrentQueue.Take" =
+    some "call(lock.Lock) defer{call(lock.Unlock)} call(queue.Take) return" := by decide
+theorem C08_skel_queue_poll : Gen.skeletonOf "ConcurrentQueue.Poll" =
+    some "call(lock.Lock) defer{call(lock.Unlock)} call(queue.Poll) return" := by decide
+theorem C08_skel_stack_push : Gen.skeletonOf "ConcurrentStack.Push" =
+    some "call(lock.Lock) defer{call(lock.Unlock)} call(stack.Push) return" := by decide
+theorem C08_skel_stack_pop : Gen.skeletonOf "ConcurrentStack.Pop" =
+    some "call(lock.Lock) defer{call(lock.Unlock)} call(stack.Pop) return" := by decide
+
+end FpgoVerif.C08
